@@ -1389,6 +1389,20 @@ func vC05ClientDO(raw []byte) bool {
 	return false
 }
 
+// vC05ReachesCache: the decoded reply is the CACHE's reply only for a packet the handlers in front of the
+// cache hand on - the edns handler answers an OPT version other than 0 itself (BADVERS, no sections), on
+// both paths; such a reply says nothing about the chase / the serving verdict (it is compared as CaseDiff)
+func vC05ReachesCache(raw []byte) bool {
+	m := new(dns.Msg)
+	if err := m.Unpack(raw); err != nil {
+		return false
+	}
+	if o := m.IsEdns0(); o != nil && o.Version() != 0 {
+		return false
+	}
+	return true
+}
+
 // vC05ChaseCase renders one CaseChase term (names numbered per folded name) or "" when nothing was viewed.
 func vC05ChaseCase(st vC05Step, ob vC05StepObs) (string, map[string]any) {
 	if ob.chW == nil && ob.chM == nil {
@@ -1497,7 +1511,7 @@ func vC05ChaseCase(st vC05Step, ob vC05StepObs) (string, map[string]any) {
 				strippedLater = strippedLater || h.FullDNSSEC
 			}
 		}
-		if a, rc, tc, ok := answers(ob.rawM); ok && !tc && !strippedLater {
+		if a, rc, tc, ok := answers(ob.rawM); ok && !tc && !strippedLater && vC05ReachesCache(st.raw) {
 			mrep = fmt.Sprintf("(Some (%d%%N, %s))", rc, recs(a))
 		}
 	}
@@ -1590,7 +1604,7 @@ func vC05VerdictCase(st vC05Step, ob vC05StepObs, withBytes bool) (string, strin
 	// the decoded-path server's reply is comparable when it held the same entry before and after the packet
 	mrep := "None"
 	if ob.vdM != nil && ob.vdMPost != nil && ob.vdM.Live && ob.vdMPost.Live && reflect.DeepEqual(ob.vdM.Full, v.Full) &&
-		reflect.DeepEqual(ob.vdM.Full, ob.vdMPost.Full) && ob.vdM.FullFlags == v.FullFlags {
+		reflect.DeepEqual(ob.vdM.Full, ob.vdMPost.Full) && ob.vdM.FullFlags == v.FullFlags && vC05ReachesCache(st.raw) {
 		mrep = reply(ob.rawM)
 	}
 	bytesS := "[]"
@@ -2213,6 +2227,10 @@ func TestVerifC05Differential(t *testing.T) {
 	// thorough tier: both serve modes x UDP/TCP for each.
 	{
 		types := append([]int{}, vC05RichTypes...)
+		// ... and two types the universe holds no records of (one the library knows, one it does not): the
+		// unsigned names answer NODATA with the SOA alone, the signed ones with SOA + NSEC + RRSIGs in the
+		// authority section (DNSSEC records outside the answer section), directly and behind the aliases
+		types = append(types, 99, 65280)
 		modes := []vC05Toggles{{}, {inline: true}}
 		if os.Getenv("VERIF_TIER") == "thorough" {
 			modes = []vC05Toggles{{}, {inline: true}, {tcp: true}, {tcp: true, inline: true}}
@@ -2241,6 +2259,27 @@ func TestVerifC05Differential(t *testing.T) {
 		verdictLeft, verdictBytesLeft = 3000, 300
 	}
 	verdictSeen, verdictBytesSeen := map[string]bool{}, map[string]bool{}
+	// ... spread over the SHAPES of the stored body (rcode, answer or not, DNSSEC records in answer / authority,
+	// alias in the answer): the scripted sweeps come first and would otherwise spend the whole budget on
+	// unsigned positive answers
+	verdictPerClass, verdictBytesPerClass := map[string]int{}, map[string]int{}
+	verdictClassCap, verdictBytesClassCap := 45, 8
+	if os.Getenv("VERIF_TIER") == "thorough" {
+		verdictClassCap, verdictBytesClassCap = 700, 60
+	}
+	verdictClass := func(v *cache.VC05Verdict) string {
+		has := func(rs []cache.VC05Rec, ts ...uint16) bool {
+			for _, r := range rs {
+				for _, t := range ts {
+					if uint16(r.Type) == t {
+						return true
+					}
+				}
+			}
+			return false
+		}
+		return fmt.Sprintf("rc%d an=%v and=%v nsd=%v cn=%v", v.Full.Rcode, len(v.Full.An) > 0, has(v.Full.An, 46, 47, 50), has(v.Full.Ns, 46, 47, 50), has(v.Full.An, 5))
+	}
 	for budget > 0 {
 		scen++
 		tg := vC05Toggles{
@@ -2485,13 +2524,17 @@ func TestVerifC05Differential(t *testing.T) {
 			if cq, cdesc := vC05ChaseCase(st, ob); cq != "" && !unsettled && !(firstBad >= 0 && i > firstBad) {
 				emit(map[string]any{"k": "chase/" + ob.route, "coq": cq, "desc": cdesc, "nontrivial": true, "go_fail": ""})
 			}
-			if !st.probe && !unsettled && !(firstBad >= 0 && i > firstBad) && verdictLeft > 0 {
-				withBytes := ob.vdW != nil && len(ob.vdW.Wire) <= 260 && verdictBytesLeft > 0 && !verdictBytesSeen[ob.vdW.Name+"/"+strconv.Itoa(int(ob.vdW.Qtype))]
+			if !st.probe && !unsettled && !(firstBad >= 0 && i > firstBad) && verdictLeft > 0 && ob.vdW != nil && verdictPerClass[verdictClass(ob.vdW)] < verdictClassCap {
+				class := verdictClass(ob.vdW)
+				withBytes := len(ob.vdW.Wire) <= 260 && verdictBytesLeft > 0 && verdictBytesPerClass[class] < verdictBytesClassCap &&
+					!verdictBytesSeen[ob.vdW.Name+"/"+strconv.Itoa(int(ob.vdW.Qtype))]
 				if vq, key, vdesc := vC05VerdictCase(st, ob, withBytes); vq != "" && !verdictSeen[key] {
 					verdictSeen[key] = true
 					verdictLeft--
+					verdictPerClass[class]++
 					if withBytes {
 						verdictBytesLeft--
+						verdictBytesPerClass[class]++
 						verdictBytesSeen[ob.vdW.Name+"/"+strconv.Itoa(int(ob.vdW.Qtype))] = true
 					}
 					emit(map[string]any{"k": fmt.Sprintf("verdict/choice%d/%s", ob.vdW.Choice, ob.route), "coq": vq, "desc": vdesc, "nontrivial": true, "go_fail": ""})
